@@ -74,5 +74,9 @@ class LargeCommunity(Attribute):
                     data=value
                 )
 
+        if len(large_community_hex) > 255:
+            # more than 21 large communities: the attribute length needs two octets
+            return struct.pack('!B', cls.FLAG + AttributeFlag.EXTENDED_LENGTH) + struct.pack('!B', cls.ID) \
+                + struct.pack('!H', len(large_community_hex)) + large_community_hex
         return struct.pack('!B', cls.FLAG) + struct.pack('!B', cls.ID) \
             + struct.pack('!B', len(large_community_hex)) + large_community_hex
